@@ -30,6 +30,7 @@ func main() {
 		n := fs.Int("n", 0, "number of cases (0: the property's default for the tier)")
 		spec := fs.String("spec", "", "jpv-spec executable")
 		impl := fs.String("impl", "", "jpv-impl executable")
+		peg := fs.String("peg", "", "jpv-peg executable")
 		replays := fs.String("replays", "replays", "replay directory")
 		out := fs.String("out", "", "summary JSON file")
 		workers := fs.Int("workers", 12, "worker processes")
@@ -44,7 +45,7 @@ func main() {
 			*n = p.Count(*tier)
 		}
 		self, _ := os.Executable()
-		sum := jph.RunParent(jph.RunOpts{Prop: *prop, Seed: *seed, Tier: *tier, N: *n, SpecExe: *spec, ImplExe: *impl,
+		sum := jph.RunParent(jph.RunOpts{Prop: *prop, Seed: *seed, Tier: *tier, N: *n, SpecExe: *spec, ImplExe: *impl, PegExe: *peg,
 			ReplayDir: *replays, Self: self, Workers: *workers, From: *from})
 		bs, _ := json.MarshalIndent(sum, "", " ")
 		if *out != "" {
